@@ -247,13 +247,21 @@ class CallMixin:
                 memo_key = None
             if memo_key is not None and memo_key in self._memoised:
                 return self._memoised[memo_key]
+        collect = False
         if not isinstance(fnode, ast.Lambda) and has_yield(fnode) and not (
                 fi.qualname in self.analyse_generators and not any(f is fi for (_s, f) in fr.chain)):
-            n = self.generic_call(self.func_node(fi), pos, kw, st, fr, site, "generator")
-            n.extra["generator"] = fi
-            return n
+            recursive = any((isinstance(x, ast.Call) and isinstance(x.func, ast.Name) and x.func.id == fi.name) or
+                            isinstance(x, ast.YieldFrom) for x in ast.walk(fnode))     # delegation: may recurse
+            if recursive or any(f is fi for (_s, f) in fr.chain):
+                n = self.generic_call(self.func_node(fi), pos, kw, st, fr, site, "generator")
+                n.extra["generator"] = fi
+                return n
+            # a plain (non-recursive) generator is read as the sequence of the values it yields, in order
+            collect = True
         self.inlined.append((fi, site))
         locals_ = self.bind_args(fi, pos, kw, st, fr, site, captured)
+        if collect:
+            locals_["$yield"] = self.mk("List", (), None, site)
         selfn = None
         a = fnode.args
         params = [p.arg for p in a.posonlyargs + a.args]
@@ -278,6 +286,11 @@ class CallMixin:
             if not nfr.exits:
                 raise PathEnd()
             mst, v = self.merge_exits(nfr.exits, nfr.entry_pc_len)
+            if collect:
+                v = self.freeze(locals_["$yield"], mst)
+                if v.extra is None:
+                    v.extra = {}
+                v.extra["generator_of"] = fi
             if fi.qualname in self.watch_locals:
                 self.kept_locals.setdefault(fi.qualname, []).append((mst.locals, mst))
             if fi.qualname in self.watch_calls:
